@@ -130,8 +130,19 @@ def _mp(P):
     return ManglePolygon(x=a[:, :3].copy(), cm=a[:, 3].copy(), use_caps=P['u'])
 
 
+_POINT_BUFFERS = {}
+
+
 def _points(pts):
-    return np.array(pts, dtype=np.float64).reshape(len(pts), len(pts[0]))
+    """the points as the (n, 2) / (n, 3) float array handed to the real code.  Like a catalogue reader that works through
+    chunks, the harness REUSES one work array per shape and refills it in place: an answer that depends on what the same
+    array object held at an earlier call (a cache keyed on identity) then differs from the model at once."""
+    shape = (len(pts), len(pts[0]))
+    buf = _POINT_BUFFERS.get(shape)
+    if buf is None:
+        buf = _POINT_BUFFERS[shape] = np.empty(shape, dtype=np.float64)
+    buf[...] = np.array(pts, dtype=np.float64).reshape(shape)
+    return buf
 
 
 def _canon_window(r):
@@ -941,6 +952,15 @@ def stream_storage(ctx):
     for _ in range(ctx.n(25, 400)):
         focus = unit(rng)
         bcaps = [gen_cap(rng, focus) for _ in range(rng.randint(1, 14))]
+        if rng.random() < 0.5:
+            # window files hold balkans whose caps repeat a centre: a cap next to the complement of a smaller or equal one (a
+            # ring / rim), or a cap listed twice.  Every stored cap is in use (USE_CAPS = all ones of NCAPS bits).
+            for _ in range(rng.randint(1, 3)):
+                k = rng.randrange(len(bcaps))
+                twin = list(bcaps[k])
+                if rng.random() < 0.7:
+                    twin[3] = -twin[3]
+                bcaps.insert(k + 1, twin)
         blist = []
         for _ in range(rng.randint(1, 6)):
             n = rng.randint(1, min(6, len(bcaps)))
@@ -1013,9 +1033,27 @@ def directed_search(ctx):
                 ctx.violate('usecaps:' + (r.get('err') or 'wrong-bits'), 'set_use_caps(p, [%d]) gives %s' % (i, r), c)
 
 
+def _prior_call(case):
+    """a failing input may be a HISTORY: the run met the case with work arrays that had held other points before.  The replay
+    recreates that: the same shapes are first passed through the real functions with other contents."""
+    from pydl.pydlutils import mangle as mng
+    try:
+        pts = case.get('pts') or []
+        if pts:
+            other = [[(v * 0.37 + 11.0) % 80.0 for v in p] if len(p) == 2 else [p[2], p[0], p[1]] for p in pts]
+            A = _points(other)
+            cap = case.get('cap') or (case.get('poly') or {}).get('caps', [None])[0] or ((case.get('polys') or [{}])[0].get('caps') or [None])[0]
+            if cap:
+                mng.cap_distance(np.array(cap[:3], dtype='d'), cap[3], A)
+                mng.is_in_cap(np.array(cap[:3], dtype='d'), cap[3], A)
+    except Exception:
+        pass
+
+
 def replay(ctx, case):
     core.audit(ctx, LEAN_MODULES, THEOREMS)
     s = case.get('stream')
+    _prior_call(case)
     if s == 'window':
         check_window(ctx, case)
     elif s == 'polygon':
